@@ -67,17 +67,24 @@ def r1_precedence(ctx):
               'an amplifier with an imposed model does not get exactly that model before any other restriction is considered')
     from ..pattern import mstmt, mexpr, find
     nd, pv, nx = f.params[0], f.params[1], f.params[2]
-    init = [(x, b) for x in body for b in [mstmt('V_r = []', x)] if b is not None]
-    ctx.check('R1.precedence', f'{s} default', len(init) == 1, key(f, 'default'), 'restrictions do not start empty (allowed_for_design fall-back)')
-    rv = init[0][1]['V_r'] if len(init) == 1 else None
+    # canonical form: the empty default is the final else of the chain
     chain = next((x for x in body if isinstance(x, ast.If) and 'variety_list' in ast.unparse(x.test) and x is not first), None)
     order = []
     cur = chain
+    rv = None
+    final = []
     while isinstance(cur, ast.If):
         t = ast.unparse(cur.test)
-        v = next((ast.unparse(a.value) for a in cur.body if isinstance(a, ast.Assign) and ast.unparse(a.targets[0]) == rv), None)
+        asg = [a for a in cur.body if isinstance(a, ast.Assign) and len(a.targets) == 1 and isinstance(a.targets[0], ast.Name)]
+        if rv is None and len(asg) == 1:
+            rv = asg[0].targets[0].id
+        v = next((ast.unparse(a.value) for a in asg if a.targets[0].id == rv), None)
         order.append((t, v))
+        final = cur.orelse
         cur = cur.orelse[0] if len(cur.orelse) == 1 and isinstance(cur.orelse[0], ast.If) else None
+    init = [x for x in final if rv is not None and mstmt(f'{rv} = []', x) is not None]
+    ctx.check('R1.precedence', f'{s} default', len(init) == 1 and len(final) == 1, key(f, 'default'),
+              'restrictions do not start empty (allowed_for_design fall-back)')
     want = [(f'{nd}.variety_list', f'{nd}.variety_list'),
             (f'isinstance({pv}, elements.Roadm)', f"{pv}.restrictions['booster_variety_list']"),
             (f'isinstance({nx}, elements.Roadm)', f"{nx}.restrictions['preamp_variety_list']")]
